@@ -138,7 +138,16 @@ impl Manifest {
         let mut begin = false;
 
         for value in stream {
-            let value = value?;
+            let value = match value {
+                Ok(value) => value,
+                // A crash in the middle of `append` leaves an incomplete trailing record. The
+                // transaction it belongs to was never acknowledged: ignore the torn tail.
+                Err(e) if e.is_eof() => {
+                    warn!("manifest: ignore incomplete trailing record");
+                    break;
+                }
+                Err(e) => return Err(e.into()),
+            };
             match value {
                 ManifestOperation::Begin => begin = true,
                 ManifestOperation::End => {
